@@ -134,6 +134,8 @@ func rulesC04(c *Ctx) {
 	verifierCore(c, "C04.verify")
 	c04IterErr(c)
 	c04Round4(c)
+	c04Round5(c)
+	remoteNodePresentRule(c, "C04.deref")
 	ix := c.P.BuildIndex()
 
 	const rs = "storage/mkvs.(*cache).remoteSync"
